@@ -65,6 +65,18 @@ Theorem C22_alps_in_transcript : forall (fin : bytes -> bytes) tr st certs,
 Proof. exact client_flight_accepted. Qed.
 Print Assumptions C22_alps_in_transcript.
 
+(* ... and it is the first message of the client's second flight also when the server asked for a certificate: EncryptedExtensions,
+   then Certificate / CertificateVerify, then Finished (an ALPS server reads it right after its own Finished) *)
+Theorem C22_client_ee_first : forall (fin : bytes -> bytes) tr st certs m sent tr2,
+  send_client_ee st = Ok [m] -> client_flight fin tr st certs = Ok (sent, tr2) ->
+  sent = m :: certs ++ [finished_msg fin tr2] /\ tr2 = tr ++ m ++ concat certs.
+Proof. exact client_ee_first. Qed.
+Print Assumptions C22_client_ee_first.
+(* a PSK-resumed connection negotiates application settings like a full handshake (the hook is not guarded by usingPSK) *)
+Theorem C22_alps_resumed_same : forall using_psk fixed c data, client_read_ee_conn using_psk fixed c data = client_read_ee fixed c data.
+Proof. exact client_read_ee_conn_psk. Qed.
+Print Assumptions C22_alps_resumed_same.
+
 (* alps_local (FIXED code): from the bytes of the server's EncryptedExtensions to what the server decodes: the client's
    configured settings for the negotiated protocol, on the server's code point, inside the transcript, Finished accepted *)
 Theorem C22_alps_local : forall (fin : bytes -> bytes) c data m st v tr certs,
